@@ -1,4 +1,4 @@
-use std::io;
+use std::io::{self, Write};
 
 use bytelines::ByteLinesReader;
 
@@ -7,11 +7,13 @@ pub fn parse_ansi() -> std::io::Result<()> {
     use crate::ansi;
 
     let mut lines = io::stdin().lock().byte_lines();
+    let mut stdout = io::stdout().lock();
     while let Some(line) = lines.next() {
-        println!(
+        writeln!(
+            stdout,
             "{}",
             ansi::explain_ansi(&String::from_utf8_lossy(line?), true)
-        );
+        )?;
     }
     Ok(())
 }
